@@ -35,3 +35,31 @@ Example C17_example :
   contains_Z EvenOdd [ZMove (0, 0); ZLine (4, 0)] 8 0 = false /\
   contains_Z EvenOdd [ZMove (0, 0); ZLine (4, 0)] 2 0 = true.
 Proof. vm_compute. repeat split. Qed.
+
+(* ---- the binary32 procedure IS the integer procedure on the quarter-pixel grid (ContainsF32.v, Flocq) ---- *)
+Require Import RQ.F32 RQ.PathF RQ.PathOps RQ.GridProofs RQ.ContainsF32.
+
+(* for every flat path whose points are quarter-pixel multiples n/4 with |n| <= 2048 (+-512 px) and every such query
+   point, the f32 model of Path::contains_point returns exactly the integer procedure's answer: the differences and the
+   two products of the cross product are exact, the final subtraction may round but never across zero *)
+Theorem C17_f32_procedure_is_the_integer_procedure_on_the_grid : forall rule ops zops x y nx ny,
+  grid_ops_within 2048 ops zops -> fquarter x nx -> fquarter y ny -> Z.abs nx <= 2048 -> Z.abs ny <= 2048 ->
+  contains_point_flat (mk_path ops rule) x y = Ok (contains_Z rule zops nx ny).
+Proof. exact contains_point_flat_on_grid_2048. Qed.
+Print Assumptions C17_f32_procedure_is_the_integer_procedure_on_the_grid.
+
+(* ... and therefore the declarative statement: inside by the winding number of the implicitly closed path, or on a segment *)
+Theorem C17_f32_procedure_is_the_statement_on_the_grid : forall rule ops zops x y nx ny,
+  grid_ops_within 2048 ops zops -> fquarter x nx -> fquarter y ny -> Z.abs nx <= 2048 -> Z.abs ny <= 2048 ->
+  contains_point_flat (mk_path ops rule) x y = Ok (contains_spec rule zops nx ny).
+Proof. exact contains_point_flat_spec_on_grid_2048. Qed.
+Print Assumptions C17_f32_procedure_is_the_statement_on_the_grid.
+
+(* the bound is not an artefact: at |n| = 4096 the f32 cross product of a point one unit off a long edge rounds to zero
+   and the procedure reports "on the outline" (a limit of binary32, inside the crate's contract: tolerance-free hit test) *)
+Theorem C17_grid_bound_is_needed : 
+  grid_ops_within 4096 sharp_ops sharp_zops /\ fquarter (of_quarter 4094) 4094 /\ fquarter (of_quarter 4095) 4095 /\
+  contains_point_flat (mk_path sharp_ops NonZero) (of_quarter 4094) (of_quarter 4095) = Ok true /\
+  contains_Z NonZero sharp_zops 4094 4095 = false.
+Proof. exact bound_4096_fails. Qed.
+Print Assumptions C17_grid_bound_is_needed.
